@@ -56,6 +56,12 @@ MUTANTS = [
     ("C11", "bias_on_vectors", G + "ml/layers.py", "if (k, p) == (0, 0) and (self.use_bias == \"scalar\" or self.use_bias == \"auto\"):", "if k == 0 and (self.use_bias == \"scalar\" or self.use_bias == \"auto\"):", "additive bias also on pseudo-scalars"),
     ("C11", "mean_over_channels", G + "ml/layers.py", "image, axis=tuple(range(1, 1 + self.invariant_filters.D)), keepdims=True", "image, axis=tuple(range(0, self.invariant_filters.D)), keepdims=True", "mean taken over channel and all but the last spatial axis"),
     ("C11", "skip_target", G + "ml/layers.py", "                if (out_k, out_p) in out:  # it already has that key\n                    out[(out_k, out_p)] = convolve_contracted_imgs + out[(out_k, out_p)]", "                if (out_k, out_p) in out:  # it already has that key\n                    out[(out_k, out_p)] = convolve_contracted_imgs if in_k > out_k else convolve_contracted_imgs + out[(out_k, out_p)]", "accumulation over input types overwritten when in_k > out_k"),
+    ("C10", "no_inverse", G + "models.py", "rot_out_image = out_image.times_group_element(gg.T)", "rot_out_image = out_image.times_group_element(gg)", "output rotated by g instead of g^-1"),
+    ("C10", "divide_const", G + "models.py", "return sum_image / len(self.operators), out_aux", "return sum_image / 8, out_aux", "division by a constant group order"),
+    ("C10", "skip_first_operator", G + "models.py", "            for gg in self.operators:\n                out_image, out_aux", "            for gg in self.operators[1:] if len(self.operators) > 4 else self.operators:\n                out_image, out_aux", "the identity is skipped for groups with more than 4 elements"),
+    ("C10", "flip_input_only", G + "models.py", "            self.model(self.to1d(x.times_group_element(equator_flip)), aux_data)[0]\n        ).times_group_element(equator_flip)", "            self.model(self.to1d(x.times_group_element(equator_flip)), aux_data)[0]\n        )", "equator flip not undone on the output"),
+    ("C10", "swap_components", G + "models.py", "                out.append(0, 1, image[..., 0])\n                out.append(0, 0, image[..., 1])", "                out.append(0, 1, image[..., 1])\n                out.append(0, 0, image[..., 0])", "vector components sent to the wrong parity in to1d only"),
+    ("C10", "to1d_unsorted", G + "models.py", "in sorted(dynamic_x.items(), key=lambda key_img: key_img[0]):", "in dynamic_x.items():", "the original defect"),
     ("C19", "le", G + "ml/stopping_conditions.py", "if train_loss < (self.best_train_loss - self.min_delta):", "if train_loss <= (self.best_train_loss - self.min_delta):", "non-strict improvement test"),
     ("C19", "ge_patience", G + "ml/stopping_conditions.py", "        return self.epochs_since_best > self.patience\n\n\nclass ValLoss", "        return self.epochs_since_best >= self.patience\n\n\nclass ValLoss", "stops one epoch early"),
     ("C19", "no_reset", G + "ml/stopping_conditions.py", "            self.best_model = model\n            self.epochs_since_best = 0\n\n            if self.verbose >= 1:\n                self.log_status(current_epoch, train_loss, val_loss, epoch_time)\n        else:\n            self.epochs_since_best += 1\n\n        return self.epochs_since_best > self.patience\n\n\nclass ValLoss", "            self.best_model = model\n\n            if self.verbose >= 1:\n                self.log_status(current_epoch, train_loss, val_loss, epoch_time)\n        else:\n            self.epochs_since_best += 1\n\n        return self.epochs_since_best > self.patience\n\n\nclass ValLoss", "counter not reset on improvement"),
